@@ -212,11 +212,22 @@ func (o *c02Oracle) run(w *World) {
 	var refOrder []int
 	for pi, perm := range perms {
 		rib := locRIB.New("c02")
+		// the first order is the reference: the candidates alone. Every other order has the noise
+		// paths added and removed again in between, and every second one additionally ends with all
+		// noise paths being added and then removed (the last operations are removals)
 		for k, ci := range perm {
 			rib.AddPath(pfx, cands[ci].build(ci))
-			if k < len(noise) {
+			if pi > 0 && k < len(noise) {
 				np := noise[k].build(500 + k)
 				rib.AddPath(pfx, np)
+				rib.RemovePath(pfx, noise[k].build(500+k))
+			}
+		}
+		if pi%2 == 1 {
+			for k := range noise {
+				rib.AddPath(pfx, noise[k].build(500+k))
+			}
+			for k := range noise {
 				rib.RemovePath(pfx, noise[k].build(500+k))
 			}
 		}
@@ -357,7 +368,10 @@ func genC04(seed uint64) *Plan {
 	nclients := 1 + r.Intn(4)
 	n := 8 + r.Intn(40)
 	for i := 0; i < n; i++ {
-		switch weighted(r, map[string]int{"add": 10, "remove": 6, "register": 3, "unregister": 2, "refresh": 1}, []string{"add", "remove", "register", "unregister", "refresh"}) {
+		switch weighted(r, map[string]int{"add": 10, "remove": 6, "register": 3, "unregister": 2, "refresh": 1, "replace": 4}, []string{"add", "remove", "register", "unregister", "refresh", "replace"}) {
+		case "replace":
+			// LocRIB.ReplacePath: a stored path (N) is replaced by another candidate (Code)
+			pl.Steps = append(pl.Steps, Step{Kind: "lr_op", Label: "replace", Pfx: []Prefix{pick(r, pfxs)}, N: r.Intn(nc), Code: uint8(r.Intn(nc))})
 		case "add":
 			pl.Steps = append(pl.Steps, Step{Kind: "lr_op", Label: "add", Pfx: []Prefix{pick(r, pfxs)}, N: r.Intn(nc)})
 		case "remove":
@@ -417,6 +431,16 @@ func (o *c04Oracle) apply(w *World, i int, s *Step) {
 		}
 		delete(o.stored[pfx], s.N)
 		w.Go("LocRIB.RemovePath", func() { o.rib.RemovePath(ToBnetPrefix(pfx), cands[s.N].build(s.N)) })
+	case "replace":
+		pfx := s.Pfx[0]
+		nw := int(s.Code)
+		if !o.stored[pfx][s.N] || o.stored[pfx][nw] || nw >= len(cands) {
+			return
+		}
+		delete(o.stored[pfx], s.N)
+		o.stored[pfx][nw] = true
+		w.Env.probe("locrib_replace_path")
+		w.Go("LocRIB.ReplacePath", func() { o.rib.ReplacePath(ToBnetPrefix(pfx), cands[s.N].build(s.N), cands[nw].build(nw)) })
 	case "register":
 		if c := o.clients[s.Peer]; c != nil && c.active {
 			return
